@@ -5,7 +5,8 @@ both dynamics with a scripted random source; the model (Model/Sequence.v via Tie
 flattening, the locus registry, the event-rate distribution, the merged results, maximumTime,
 atEquilibrium, every parameter lookup and the write set of every event from the *description* of the
 tree and is compared with what the implementation did.
-D: the property restated directly on the implementation's observables (see `direct`)."""
+D: the property restated directly on the implementation's observables (see `direct`), incl. the series a Monitor reports
+(one per locus registry key, one sample per observation) and every equilibrium test the dynamics makes of the sequence."""
 import itertools
 
 import networkx
@@ -202,6 +203,8 @@ class H(Harness):
             'name and a name containing @, at most one unnamed), Monitor, NetworkStatistics, ScriptProcess tables and a parameter probe; '
             'every disease parameter independently supplied decorated / undecorated / both; 12% of the cases register a duplicate locus '
             'name (same class, same instance name) and 6% omit a required parameter; per-leaf or forwarded maximum times; both dynamics; '
+            'half of the probe leaves override atEquilibrium by a threshold of their own (0-6, or never; equilibrium asked about around the largest '
+            'maximum time and each threshold, and at every test the run itself makes); '
             'networks of 2-6 nodes; non-trivial = at least two leaves, at least one event fired and at least one parameter resolved '
             'through a non-first level of the lookup rule or two instances of one class')
     TRUSTED = ['Coq 8.16.1 kernel incl. vm_compute', 'harness/c11.py, harness/kscript.py, harness/kcommon.py, vlib/oracle.py',
